@@ -29,7 +29,7 @@ func init() {
 		Bounds: func(tier string) map[string]any {
 			return map[string]any{"max_params": 3, "max_columns": 3, "value_alphabet": []string{"NULL", "", "a", "\\x00", "1"}, "declared_oid_lists": c08OidLists(tier)}
 		},
-		RequiredOutcomes: []string{"with-null", "no-null", "typed"},
+		RequiredOutcomes: []string{"with-null", "no-null", "typed", "rebind"},
 	})
 }
 
@@ -378,7 +378,86 @@ func c08RunTyped(ps []typedParam) explore.Result {
 	return res
 }
 
+// c08RunRebind: the same portal name is bound several times to the same statement with different
+// result-format sections (and parameter values); after every Bind the portal must reflect THAT Bind.
+func c08RunRebind(cols int, rounds [][]int16) explore.Result {
+	var res explore.Result
+	res.Outcome = "rebind"
+	var seen []string
+	parse := func(ctx context.Context, q string) (wire.PreparedStatements, error) {
+		return wire.Prepared(wire.NewStatement(func(ctx context.Context, w wire.DataWriter, params []wire.Parameter) error {
+			seen = seen[:0]
+			for _, p := range params {
+				seen = append(seen, qbytes(p.Value()))
+			}
+			row := make([]any, cols)
+			for i := range row {
+				row[i] = int32(258 + i)
+			}
+			if err := w.Row(row); err != nil {
+				return err
+			}
+			return w.Complete("SELECT 1")
+		}, wire.WithColumns(c08Columns(cols)))), nil
+	}
+	one, err := harness.StartOne(parse)
+	if err != nil {
+		res.Engine = err.Error()
+		return res
+	}
+	defer one.Stop()
+	one.Step(pgproto.Startup("user", "u"))
+	if out, _ := one.Step(pgproto.Parse("s", "q")); harness.Kinds(out) != "1" {
+		res.Engine = "Parse failed"
+		return res
+	}
+	res.Key = fmt.Sprint("rebind", cols, rounds)
+	for r, rf := range rounds {
+		val := []byte(fmt.Sprintf("round-%d", r))
+		out, _ := one.Step(pgproto.Cat(pgproto.Bind("p", "s", nil, [][]byte{val}, rf), pgproto.Describe('P', "p"), pgproto.Execute("p", 0), pgproto.Sync()))
+		ms, perr := pgproto.ParseBackend(out)
+		if perr != nil || pgproto.Kinds(ms) != "2TDCZ" {
+			res.Fail("reply-sequence", fmt.Sprintf("round %d (result codes %v): reply %q %v", r, rf, pgproto.Kinds(ms), perr))
+			return res
+		}
+		if len(seen) != 1 || seen[0] != qbytes(val) {
+			res.Fail("parameter-values", fmt.Sprintf("round %d: Bind sent %q, handler saw %v", r, val, seen))
+		}
+		for i, col := range ms[1].Cols {
+			want := formatRule(rf, i)
+			if col.Format != want {
+				res.Fail("result-format-announced", fmt.Sprintf("round %d of re-binding the same portal: result codes %v => column %d format %d, Describe(P) announces %d (rounds %v)", r, rf, i, want, col.Format, rounds))
+			}
+			f := ms[2].Row[i]
+			ok := false
+			if col.Format == 0 {
+				ok = string(f) == fmt.Sprint(258+i)
+			} else {
+				ok = len(f) == 4 && int(binary.BigEndian.Uint32(f)) == 258+i
+			}
+			if !ok {
+				res.Fail("result-format-used", fmt.Sprintf("round %d: column %d announced format %d, field % x", r, i, col.Format, f))
+			}
+		}
+	}
+	res.Trans = []string{fmt.Sprintf("bound|rebind x%d|bound", len(rounds))}
+	return res
+}
+
 func c08Enumerate(tier string, emit explore.Emit) {
+	for cols := 1; cols <= 2; cols++ {
+		secs := formatSections(cols)
+		for _, a := range secs {
+			for _, b := range secs {
+				for _, c := range [][]int16{nil, {1}} {
+					cols, rounds := cols, [][]int16{a, b, c}
+					emit(explore.Case{Family: "rebind", Size: 3,
+						Desc: func() any { return map[string]any{"columns": cols, "result_codes_per_round": rounds} },
+						Run:  func() explore.Result { return c08RunRebind(cols, rounds) }})
+				}
+			}
+		}
+	}
 	oidLists := c08OidLists(tier)
 	for n := 0; n <= 3; n++ {
 		total := 1
